@@ -12,3 +12,8 @@ pub fn find_entry(
 ) -> (u64, usize) {
 	crate::index::IndexTable::verif_find_entry(index_bits, key_prefix, sub_index, chunk, fast)
 }
+
+/// H5: index entry packing and key recovery (see `IndexTable::verif_entry_codec`).
+pub fn entry_codec(index_bits: u8, key_prefix: u64, address: u64) -> (u64, u64, u64, u64, u64) {
+	crate::index::IndexTable::verif_entry_codec(index_bits, key_prefix, address)
+}
